@@ -8,7 +8,8 @@ a.writable(); a 1-D writable view writes through; a request for a *writable* buf
 and never modifies a read-only one. A read-only array, a masked reference and a strided component view may raise instead of exporting -- never die.
 
 Import: every ...ArrayFromBuffer x every source {array('b','h','i','q','f','d'), bytes, 2-D casts, strided views, imath
-arrays} x lengths 0..6. If the source matches (same format and item size, C-contiguous, 1-D for scalar arrays / (n,W) for
+arrays} x lengths 0..6 (run_import), and x every first-dimension slice [a:b:s] (s in +-1,+-2,+-3) of a 1-D / (6,W) buffer of every element
+type and of every exporting imath class (run_rows: rows skipped or reversed, each row dense). If the source matches (same format and item size, C-contiguous, 1-D for scalar arrays / (n,W) for
 vector arrays) the result holds exactly the source elements. Otherwise the call must raise; we also accept a result
 whose flattened elements are numerically exactly the source's (nothing lost, nothing invented), and anything for an empty source.
 """
@@ -290,6 +291,168 @@ def run_import(R):
                 R.fail(site + (".accepted" if site != "buf.FromBuffer.mismatch.oversize-source" else ""), inp, exp,
                        "returned %d elements %r for source elements %r" % (v[0], v[1][:8], sd["flat"][:8]))
     return True
+
+
+# ---------------------------------------------------------------------------------------------------- import, sources strided along the FIRST dimension
+# A buffer may be non-contiguous in its first dimension only: memoryview(x)[a:b:s] of a 1-D array, or of a 2-D (rows, W) array whose
+# rows stay dense (strides = (s*W*itemsize, itemsize), negative for s < 0, buf pointing at the first SELECTED row). A constructor that
+# looks only at shape / len / the innermost stride takes such a source for a contiguous one and memcpy's shape[0] CONSECUTIVE rows
+# starting at buf: other rows than the selected ones and, for a negative stride, bytes past the end of the exporter's memory.
+#
+# Oracle (a priori, from the statement: "copies exactly the source elements, rejecting buffers whose element type or size does not match
+# instead of reading or writing out of bounds"): the call either raises, or returns an array of exactly shape[0] elements holding exactly
+# the SELECTED rows (computed here from the slice on a Python list of rows, not from the library). A selection that is C-contiguous
+# (step 1 sub-range, or a single row) of a matching type is a matching source and must be copied. Nothing else is demanded.
+ROWS = 6
+ROW_TYPES = [("h", 2), ("i", 4), ("l", 8), ("f", 4), ("d", 8)]       # short / int / int64 ('l' is 8 bytes on LP64, the format the int64 arrays export) / float / double
+
+
+def row_selections(R=ROWS):
+    """One slice per distinct selected index tuple of range(R), over start,stop in {None,0..R}, step in {None,+-1,+-2,+-3}."""
+    seen, out = set(), []
+    for step in (None, 1, 2, 3, -1, -2, -3):
+        for start in [None] + list(range(R + 1)):
+            for stop in [None] + list(range(R + 1)):
+                idx = tuple(range(R)[slice(start, stop, step)])
+                if idx in seen: continue
+                seen.add(idx); out.append(((start, stop, step), idx))
+    return out
+
+
+def sel_class(idx):
+    if len(idx) == 0: return "empty"
+    if len(idx) == 1: return "single-row"
+    d = idx[1] - idx[0]
+    return "contiguous" if d == 1 else ("forward" if d > 1 else "reversed")
+
+
+def _slice_txt(sl):
+    return "[%s:%s%s]" % ("" if sl[0] is None else sl[0], "" if sl[1] is None else sl[1], "" if sl[2] is None else ":%d" % sl[2])
+
+
+def row_value(tc, r, c): return float((r + 1) * 10 + c) if tc in "fd" else (r + 1) * 10 + c
+
+
+def row_bases(thorough):
+    """(description, spec, tc, itemsize, width) of every base whose first dimension is then sliced. width 1 = 1-D."""
+    out = []
+    for tc, z in ROW_TYPES:
+        for w in (1, 2, 3, 4):
+            if w == 1: out.append(("memoryview(array('%s', %d items))" % (tc, ROWS), ("rows", tc, 1), tc, z, 1))
+            else: out.append(("memoryview(array('%s') cast to shape (%d,%d))" % (tc, ROWS, w), ("rows", tc, w), tc, z, w))
+    # the library's own exports as bases: memoryview(V3fArray(6))[::2] ...
+    for nm in sorted(EXPORT_FMT):
+        f, z, w = EXPORT_FMT[nm]
+        if f == "B": continue
+        out.append(("memoryview(imath.%s(%d))" % (nm, ROWS), ("imathrows", nm), f, z, w))
+    return out
+
+
+def make_row_source(spec, sl):
+    if spec[0] == "rows":
+        tc, w = spec[1:]
+        base = array.array(tc, [row_value(tc, r, c) for r in range(ROWS) for c in range(w)])
+        mv = memoryview(base)
+        if w > 1: mv = mv.cast("B").cast(tc, shape=[ROWS, w])
+    else:
+        nm = spec[1]
+        f, z, w = EXPORT_FMT[nm]
+        a = getattr(imath, nm)(ROWS)
+        for r in range(ROWS):
+            a[r] = row_value(f, r, 0) if w == 1 else getattr(imath, nm[:-5])(*[(r + 1) * 10 + c for c in range(w)])
+        mv = memoryview(a)
+    return mv[slice(*sl)]
+
+
+def describe_row_source(spec, sl):
+    mv = make_row_source(spec, sl)
+    return {"format": mv.format, "itemsize": mv.itemsize, "ndim": mv.ndim, "shape": tuple(mv.shape), "strides": tuple(mv.strides),
+            "contig": mv.c_contiguous, "flat": _flat(mv.tolist())}
+
+
+def row_import_case(fname, spec, sl, w):
+    src = make_row_source(spec, sl)
+    r = getattr(imath, fname)(src)
+    n = len(r)
+    flat = []
+    for q in range(n):
+        e = r[q]
+        flat += [e] if w == 1 else [e[c] for c in range(w)]
+    return n, flat
+
+
+def row_item(item, t):
+    """One constructor x every base x every selection (runs in a fork_map worker; every call in its own grandchild)."""
+    fname, thorough = item
+    f, z, w = FROM[fname]
+    for bdesc, bspec, tc, bz, bw in row_bases(thorough):
+        type_ok = (tc == f and bz == z and bw == w)
+        for sl, idx in row_selections():
+            kind = sel_class(idx)
+            # quick: the whole selection alphabet on the bases of this constructor's own element type and width; three
+            # representative selections (every other row, reversed, inner sub-range) on the bases that mismatch anyway
+            if not type_ok and not thorough and sl not in ((None, None, 2), (None, None, -1), (2, 5, None)): continue
+            inp = "imath.%s(%s%s)" % (fname, bdesc, _slice_txt(sl))
+            want = [row_value(tc, r, c) for r in idx for c in range(bw)]
+            k0, sd = run_case(describe_row_source, bspec, sl)
+            if k0 != "ok":
+                if bspec[0] == "imathrows": continue          # the export of that class is judged by the export exploration
+                t.fail("buf.FromBuffer.row-strided-source.harness-exception", inp, "a sliced memoryview", sd); continue
+            if sd["flat"] != want or sd["shape"][0] != len(idx):
+                if bspec[0] == "imathrows": continue          # ditto: a wrong export is reported by buf.export.*
+                t.fail("buf.FromBuffer.row-strided-source.harness-exception", inp, want, sd); continue
+            t.add("states"); t.add("transitions")
+            # the judgement uses what the source actually exports (as run_import does), not what the base was meant to be
+            type_ok = (sd["format"] in (f, "@" + f) and sd["itemsize"] == z and
+                       ((sd["ndim"] == 1) if w == 1 else (sd["ndim"] == 2 and sd["shape"][1] == w)))
+            k, v = run_case(row_import_case, fname, bspec, sl, w)
+            if kind == "empty":
+                t.cls("buf.import.rows.empty-selection")
+                if k == "fatal": t.fail("buf.FromBuffer.empty-source.fatal", inp, "an empty array or an exception", v)
+                elif k == "ok" and v[1]: t.fail("buf.FromBuffer.empty-source.invented-elements", inp, "an empty array or an exception", v)
+                continue
+            if not type_ok:
+                # element type, item size or width differ: must raise whatever the strides (lenient as in run_import: an exact copy of the values passes)
+                t.cls("buf.import.rows.mismatching-type-or-width")
+                exp = "an exception (format %r itemsize %d shape %r strides %r does not describe %s elements)" % (sd["format"], sd["itemsize"], sd["shape"], sd["strides"], fname[:-15] if w > 1 else f)
+                if k == "fatal": t.fail("buf.FromBuffer.row-strided-source.mismatching-type.fatal", inp, exp, v)
+                elif k == "ok" and v[1] != want: t.fail("buf.FromBuffer.row-strided-source.mismatching-type.accepted", inp, exp, "returned %d elements %r" % (v[0], v[1][:12]))
+                continue
+            dim = "1d" if w == 1 else "2d"
+            if sd["contig"]:
+                # dense selection of the right type: a matching source, must be copied exactly
+                t.cls("buf.import.rows.contiguous-subrange" if kind == "contiguous" else "buf.import.rows.single-row")
+                if k == "fatal": t.fail("buf.FromBuffer.matching.fatal", inp, (len(idx), want), v)
+                elif k == "exc": t.fail("buf.FromBuffer.matching.rejected", inp, (len(idx), want), v)
+                elif v[0] != len(idx) or v[1] != want:
+                    if bspec[0] == "imathrows" and w > 1: t.fail("buf.export.len.vec", inp, (len(idx), want), "truncated copy (the constructor trusts the len exported by the source array): " + repr(v))
+                    else: t.fail("buf.FromBuffer.matching.wrong-elements", inp, (len(idx), want), v)
+                continue
+            t.cls("buf.import.rows.%s-stride.%s" % (kind, dim))
+            if bspec[0] == "imathrows": t.cls("buf.import.rows.strided-view-of-imath-array")
+            exp = "an exception, or exactly the %d selected rows %r" % (len(idx), want[:12])
+            site = "buf.FromBuffer.row-strided-source.%s.%s" % (dim, kind)
+            if k == "exc": continue
+            if k == "fatal": t.fail(site + ".fatal", inp, exp, v)
+            elif v[0] != len(idx) or v[1] != want:
+                t.fail(site + ".wrong-rows", inp, exp, "returned %d elements %r (strides %r)" % (v[0], v[1][:12], sd["strides"]))
+
+
+ROW_CLASSES = ["buf.import.rows.empty-selection", "buf.import.rows.mismatching-type-or-width", "buf.import.rows.contiguous-subrange", "buf.import.rows.single-row",
+               "buf.import.rows.forward-stride.1d", "buf.import.rows.reversed-stride.1d", "buf.import.rows.forward-stride.2d", "buf.import.rows.reversed-stride.2d",
+               "buf.import.rows.strided-view-of-imath-array"]
+
+
+def run_rows(R, thorough):
+    from c19_common import fork_map
+    R.declare(*ROW_CLASSES)
+    items = [(fname, thorough) for fname in sorted(FROM)]
+    ok = fork_map(row_item, items, R, "buf.FromBuffer.row-strided-source.worker.fatal", describe=lambda it: it[0])
+    nsel = len(row_selections())
+    msg = ("%d constructors x %d bases (array('h','i','l','f','d') as 1-D and cast to (%d,2|3|4); every exporting imath array class) x %s; "
+           "%d distinct first-dimension selections = all slices with start,stop in {None,0..%d}, step in {None,+-1,+-2,+-3}; one forked child per case" %
+           (len(items), len(row_bases(thorough)), ROWS, "every selection" if thorough else "every selection on the bases of the constructor's own type and width, 3 on the others", nsel, ROWS))
+    (R.stage_done if ok else R.stage_partial)(msg)
 
 
 def run(R, thorough):
